@@ -3039,6 +3039,15 @@ pub(crate) fn footprints_conflict(
         || b.n_write.intersects(&a.n_read)
 }
 
+/// Verification-only seam (feature `echo_verif`, hook `fingerprint` for C09): the transaction
+/// scratch fields `RuntimeCommitStateGuard` must put back (no public reader).
+#[cfg(feature = "echo_verif")]
+impl Engine {
+    pub(crate) fn echo_verif_scratch_debug(&self) -> String {
+        format!("tx={}|live={:?}", self.tx_counter, self.live_txs)
+    }
+}
+
 /// Verification-only seam (feature `echo_verif`): the real reserve/blocker loop on a raw drained list.
 #[cfg(feature = "echo_verif")]
 impl Engine {
